@@ -632,6 +632,27 @@ theorem rgraph_good' (hT : h.Topo) {pl : Plug π β} {g : Graph β} (hg : rgraph
           · exact h1
           · exact absurd h1 hbn }
 
+/-- the pseudo builds of the graph carry the "not merged" number, the other builds of its branches have a build commit
+and are builds of the graph -/
+theorem rgraph_kinds (hT : h.Topo) {pl : Plug π β} {g : Graph β} (hg : rgraph h pl = .ok g) :
+    ∀ rb ∈ g.all, ∀ bd ∈ rb.rbuilds, (bd.rcommit = some bd.iid ∧ bd ∈ g.builds) ∨ (bd.rcommit = none ∧ bd.bn = fakeNM) := by
+  unfold rgraph at hg
+  split at hg
+  · cases hg
+  · rename_i rp rbs mt hr
+    cases hg
+    have g0 : RpGood h (Repo.empty : Repo β) :=
+      { wf := wf_empty
+        normal := by intro b hb; simp [Repo.empty] at hb
+        fake := by simp [Repo.empty]
+        par := by intro b hb; simp [Repo.empty] at hb
+        time := by intro i rc hi; simp [Repo.empty] at hi }
+    obtain ⟨_, hrb, _⟩ := readBranches_good hT (branchesOf h) none true Repo.empty (rp, rbs, mt) g0 hr
+    intro rb hrb' bd hbd
+    rcases (hrb rb hrb').kind bd hbd with h1 | ⟨h1, h2, _⟩
+    · exact Or.inl h1
+    · exact Or.inr ⟨h1, h2⟩
+
 theorem rgraph_good (hT : h.Topo) (hlen : h.commits.length ≤ Gen.Ghist.fakeStart) {pl : Plug π β} {g : Graph β}
     (hg : rgraph h pl = .ok g) : GraphGood g := rgraph_good' hT hg (Or.inl hlen)
 
